@@ -52,10 +52,12 @@ def tlm_variants(tier):
             for za in zs:
                 for zb in zs:
                     for ze in zetas:
-                        out.append(E("Tlm", {"L": 1.0 if ze is zetas[0] else 0.7}, subs=(("X_1", x1), ("X_2", x2), ("Z_A", za), ("Z_B", zb), ("Zeta", ze))))
+                        # pore length chosen so that cosh(L/lambda) stays representable up to 1e9 Hz
+                        length = 0.7 if ze is not zetas[0] else (1.0 if x2 is x2s[0] or x2 is x2s[2] else 0.2)
+                        out.append(E("Tlm", {"L": length}, subs=(("X_1", x1), ("X_2", x2), ("Z_A", za), ("Z_B", zb), ("Zeta", ze))))
     # a container nested in a container
     inner = E("Tlm", subs=(("Z_B", S(E("R", {"R": 4.0}))),))
-    out.append(E("Tlm", subs=(("Z_A", S(inner)), ("X_2", S(E("R", {"R": 2.0}))))))
+    out.append(E("Tlm", {"L": 0.2}, subs=(("Z_A", S(inner)), ("X_2", S(E("R", {"R": 2.0}))))))
     out.append(E("Tlm", subs=(("X_1", S(inner)),)))
     return out
 
@@ -141,6 +143,8 @@ def eval_spec(spec, part, out):
 
     def fail(route, kind, what, tg, scalar=False):
         key = f"{route}:{tg}:{kind}"
+        if route == "list":
+            key = "list-ctor:" + kind.replace("open-circuit:", "")      # one root cause whatever the elements are
         out["fails"].append((size, key, function_for(route, tg, text), f"{route} route, circuit {ce.hand_cdc(spec)}: {what}",
                              repro_for(spec, route, refs, TOL[route], scalar)))
 
